@@ -8,8 +8,8 @@ Open Scope Z_scope.
 
 (* ---------------------------------------------------------------- the boolean checkers are sound *)
 
-Lemma kind_eqb_const k : kind_eqb k KConst = true -> k = KConst.
-Proof. destruct k; simpl; intros H; congruence. Qed.
+Lemma kind_eqb_ok k : kind_eqb k KConst || kind_eqb k KMemo = true -> k = KConst \/ k = KMemo.
+Proof. destruct k; simpl; intros H; auto; discriminate. Qed.
 
 Lemma sig_okb_sound s : sig_okb s = true -> sig_ok s.
 Proof.
@@ -19,7 +19,7 @@ Proof.
   apply andb_true_iff in H. destruct H as [H Hu].
   apply andb_true_iff in H. destruct H as [Hc Hr].
   constructor.
-  - intros g k Hin. rewrite forallb_forall in Hc. apply (kind_eqb_const k). exact (Hc (g, k) Hin).
+  - intros g k Hin. rewrite forallb_forall in Hc. apply (kind_eqb_ok k). exact (Hc (g, k) Hin).
   - intros g Hin. rewrite forallb_forall in Hr. specialize (Hr g Hin).
     apply existsb_exists in Hr. destruct Hr as [[g' k] [Hin' Heq]]. simpl in Heq.
     apply Z.eqb_eq in Heq. subst g'. exists k. exact Hin'.
@@ -67,25 +67,39 @@ Variable table : list sig.
 Variable const : Z -> val.
 Variable argval : Z -> args -> Z -> val.
 Variable accval : Z -> args -> Z -> option val -> val.
+Variable mval : Z -> args -> val.
+Variable key_eqb : args -> args -> bool.
 Variable body : Z -> args -> list (option val) -> @rsrc rstate -> res.
 Variable rng_next : Z -> args -> @rsrc rstate -> rstate -> rstate.
 
+(* a memo table is keyed by the FULL argument tuple: equal keys mean equal arguments *)
+Hypothesis key_sound : forall a b, key_eqb a b = true -> a = b.
+Hypothesis key_refl : forall a, key_eqb a a = true.
+
 Notation fill1' := (fill1 args val const argval accval).
 Notation fill' := (fill args val const argval accval).
-Notation step' := (step args val res rstate table const argval accval body rng_next).
-Notation run' := (run args val res rstate table const argval accval body rng_next).
-Notation run_from' := (run_from args val res rstate table const argval accval body rng_next).
-Notation result_after' := (result_after args val res rstate table const argval accval body rng_next).
-Notation world' := (world val rstate).
+Notation mfill1' := (mfill1 args val mval key_eqb).
+Notation mfill' := (mfill args val mval key_eqb).
+Notation step' := (step args val res rstate table const argval accval mval key_eqb body rng_next).
+Notation run' := (run args val res rstate table const argval accval mval key_eqb body rng_next).
+Notation run_from' := (run_from args val res rstate table const argval accval mval key_eqb body rng_next).
+Notation result_after' := (result_after args val res rstate table const argval accval mval key_eqb body rng_next).
+Notation world' := (world args val rstate).
 
-(* every filled table holds its constant value *)
+(* every filled table holds its constant value; every memo entry holds the value of its own key *)
 Definition Inv (c : Z -> option val) : Prop := forall g v, c g = Some v -> v = const g.
+Definition InvM (m : Z -> args -> option val) : Prop := forall g k v, m g k = Some v -> v = mval g k.
+Definition InvW (w : world') : Prop := Inv (cache w) /\ InvM (memo w).
 
-Definition all_const (l : list (Z * kind)) : Prop := forall g k, In (g, k) l -> k = KConst.
+Definition all_const (l : list (Z * kind)) : Prop := forall g k, In (g, k) l -> k = KConst \/ k = KMemo.
 
-Lemma fill1_inv f a c g0 : Inv c -> Inv (fill1' f a c (g0, KConst)).
+Lemma all_const_tail gk l : all_const (gk :: l) -> all_const l.
+Proof. intros H g k Hin. apply (H g). right. exact Hin. Qed.
+
+Lemma fill1_inv f a c g0 k0 : k0 = KConst \/ k0 = KMemo -> Inv c -> Inv (fill1' f a c (g0, k0)).
 Proof.
-  intros I g v. unfold fill1. simpl. destruct (g =? g0) eqn:E.
+  intros Hk I g v. unfold fill1. simpl. destruct (g =? g0) eqn:E; [|apply I].
+  destruct Hk as [-> | ->].
   - destruct (c g) eqn:Ec; intros H; inversion H; subst.
     + apply I. exact Ec.
     + reflexivity.
@@ -96,80 +110,133 @@ Lemma fill_inv f a l : all_const l -> forall c, Inv c -> Inv (fill' f a c l).
 Proof.
   induction l as [|[g0 k] l IH]; intros Hc c I; simpl.
   - exact I.
-  - assert (k = KConst) as -> by (apply (Hc g0); left; reflexivity).
-    apply IH.
-    + intros g k' Hin. apply (Hc g). right. exact Hin.
-    + apply fill1_inv. exact I.
+  - apply IH; [exact (all_const_tail _ _ Hc)|].
+    apply fill1_inv; [|exact I]. apply (Hc g0). left. reflexivity.
 Qed.
 
 Lemma fill_keeps f a l : all_const l -> forall c g v, c g = Some v -> fill' f a c l g = Some v.
 Proof.
   induction l as [|[g0 k] l IH]; intros Hc c g v H; simpl.
   - exact H.
-  - assert (k = KConst) as -> by (apply (Hc g0); left; reflexivity).
-    apply IH.
-    + intros g' k' Hin. apply (Hc g'). right. exact Hin.
-    + unfold fill1. simpl. destruct (g =? g0); [rewrite H; reflexivity | exact H].
+  - apply IH; [exact (all_const_tail _ _ Hc)|].
+    unfold fill1. simpl. destruct (g =? g0); [|exact H].
+    destruct (Hc g0 k (or_introl eq_refl)) as [-> | ->]; [rewrite H; reflexivity | exact H].
 Qed.
 
-Lemma fill_some f a l : all_const l -> forall c, Inv c -> forall g k, In (g, k) l ->
+Lemma fill_some f a l : all_const l -> forall c, Inv c -> forall g, In (g, KConst) l ->
   fill' f a c l g = Some (const g).
 Proof.
-  induction l as [|[g0 k0] l IH]; intros Hc c I g k Hin; simpl.
+  induction l as [|[g0 k0] l IH]; intros Hc c I g Hin; simpl.
   - destruct Hin.
-  - assert (k0 = KConst) as -> by (apply (Hc g0); left; reflexivity).
-    assert (Hc' : all_const l) by (intros g' k' Hin'; apply (Hc g'); right; exact Hin').
+  - pose proof (all_const_tail _ _ Hc) as Hc'.
+    assert (Hk0 : k0 = KConst \/ k0 = KMemo) by (apply (Hc g0); left; reflexivity).
     destruct Hin as [Heq | Hin].
-    + inversion Heq; subst g0. apply fill_keeps; [exact Hc'|].
+    + inversion Heq; subst g0 k0. apply fill_keeps; [exact Hc'|].
       unfold fill1. simpl. rewrite Z.eqb_refl. destruct (c g) eqn:Ec; [|reflexivity].
       f_equal. apply I. exact Ec.
-    + apply (IH Hc' _ (fill1_inv f a c g0 I) g k Hin).
+    + apply (IH Hc' _ (fill1_inv f a c g0 k0 Hk0 I) g Hin).
 Qed.
 
-(* what the body sees of the tables is fixed *)
-Lemma view_const f a s c : sig_ok s -> Inv c ->
-  view val s c (fill' f a c (s_fills s)) = map (fun g => Some (const g)) (s_reads s).
+Lemma mfill1_inv a m gk : InvM m -> InvM (mfill1' a m gk).
 Proof.
-  intros [Hconst Hreads Hguard _ _] I. unfold view. apply map_ext_in. intros g Hin.
-  rewrite Hguard. simpl. destruct (Hreads g Hin) as [k Hk].
-  apply (fill_some f a (s_fills s) Hconst c I g k Hk).
+  intros I g k v. unfold mfill1. destruct (snd gk); try apply I.
+  destruct ((g =? fst gk) && key_eqb a k) eqn:E; [|apply I].
+  apply andb_true_iff in E. destruct E as [_ E]. apply key_sound in E. subst k.
+  destruct (m g a) eqn:Em; intros H; inversion H; subst.
+  - apply I. exact Em.
+  - reflexivity.
+Qed.
+
+Lemma mfill_inv a l : forall m, InvM m -> InvM (mfill' a m l).
+Proof.
+  induction l as [|gk l IH]; intros m I; simpl; [exact I|]. apply IH, mfill1_inv, I.
+Qed.
+
+Lemma mfill_keeps a l : forall m g k v, m g k = Some v -> mfill' a m l g k = Some v.
+Proof.
+  induction l as [|gk l IH]; intros m g k v H; simpl; [exact H|].
+  apply IH. unfold mfill1. destruct (snd gk); try exact H.
+  destruct ((g =? fst gk) && key_eqb a k); [rewrite H; reflexivity | exact H].
+Qed.
+
+Lemma mfill_some a l : forall m, InvM m -> forall g, In (g, KMemo) l -> mfill' a m l g a = Some (mval g a).
+Proof.
+  induction l as [|[g0 k0] l IH]; intros m I g Hin; simpl.
+  - destruct Hin.
+  - destruct Hin as [Heq | Hin].
+    + inversion Heq; subst g0 k0. apply mfill_keeps.
+      unfold mfill1. simpl. rewrite Z.eqb_refl, key_refl. simpl.
+      destruct (m g a) eqn:Em; [|reflexivity]. f_equal. apply I. exact Em.
+    + apply (IH _ (mfill1_inv a m (g0, k0) I) g Hin).
+Qed.
+
+Lemma is_memo_true g l : is_memo g l = true -> In (g, KMemo) l.
+Proof.
+  unfold is_memo. intros H. apply existsb_exists in H. destruct H as [[g' k] [Hin H]]. simpl in H.
+  apply andb_true_iff in H. destruct H as [Hg Hk]. apply Z.eqb_eq in Hg. subst g'.
+  destruct k; try discriminate. exact Hin.
+Qed.
+
+Lemma is_memo_false g l k : is_memo g l = false -> In (g, k) l -> k <> KMemo.
+Proof.
+  unfold is_memo. intros H Hin Hk. subst k.
+  assert (existsb (fun gk => (g =? fst gk) && match snd gk with KMemo => true | _ => false end) l = true).
+  { apply existsb_exists. exists (g, KMemo). split; [exact Hin|]. simpl. rewrite Z.eqb_refl. reflexivity. }
+  congruence.
+Qed.
+
+(* what the body sees of the tables is fixed by its own arguments *)
+Lemma view_const f a s c m : sig_ok s -> Inv c -> InvM m ->
+  view args val s a c (fill' f a c (s_fills s)) (mfill' a m (s_fills s)) =
+  map (fun g => if is_memo g (s_fills s) then Some (mval g a) else Some (const g)) (s_reads s).
+Proof.
+  intros [Hconst Hreads Hguard _ _] I IM. unfold view. apply map_ext_in. intros g Hin.
+  destruct (is_memo g (s_fills s)) eqn:E.
+  - apply mfill_some; [exact IM|]. apply is_memo_true. exact E.
+  - rewrite Hguard. simpl. destruct (Hreads g Hin) as [k Hk].
+    destruct (Hconst g k Hk) as [-> | ->].
+    + apply (fill_some f a (s_fills s) Hconst c I g Hk).
+    + exfalso. exact (is_memo_false g _ _ E Hk eq_refl).
 Qed.
 
 (* ... and so is the source of its random draws *)
-Lemma src_const s (w w' : world') : sig_ok s -> src_of val rstate s w = src_of val rstate s w'.
+Lemma src_const s (w w' : world') : sig_ok s -> src_of args val rstate s w = src_of args val rstate s w'.
 Proof.
   intros [_ _ _ Hseed Hent]. unfold src_of. rewrite Hent.
   destruct (s_draws s) eqn:D; [|reflexivity].
   destruct (Hseed eq_refl) as [Hd Hl]. rewrite Hd. destruct (s_seed_lit s); [reflexivity | congruence].
 Qed.
 
-Lemma step_inv : sigs_ok table -> forall w c, Inv (cache w) -> Inv (cache (snd (step' w c))).
+Lemma step_inv : sigs_ok table -> forall w c, InvW w -> InvW (snd (step' w c)).
 Proof.
-  intros H w [f a] I. unfold step. simpl.
-  apply fill_inv; [|exact I]. exact (ok_const _ (lookup_ok table H f)).
+  intros H w [f a] [I IM]. unfold step. simpl. split; simpl.
+  - apply fill_inv; [|exact I]. exact (ok_const _ (lookup_ok table H f)).
+  - apply mfill_inv. exact IM.
 Qed.
 
-Lemma run_from_inv : sigs_ok table -> forall h w, Inv (cache w) -> Inv (cache (run_from' w h)).
+Lemma run_from_inv : sigs_ok table -> forall h w, InvW w -> InvW (run_from' w h).
 Proof.
   intros H h. induction h as [|c h IH]; intros w I; simpl.
   - exact I.
   - apply IH. apply step_inv; assumption.
 Qed.
 
-(* cache_inv (Full): in every reachable world each filled table equals its constant value *)
-Theorem cache_inv : sigs_ok table -> forall r0 h g v,
-  cache (run' r0 h) g = Some v -> v = const g.
-Proof.
-  intros H r0 h. unfold run. apply run_from_inv; [exact H|].
-  intros g v E. discriminate.
-Qed.
+Lemma init_inv r0 : InvW (init args val rstate r0).
+Proof. split; [intros g v E | intros g k v E]; discriminate. Qed.
+
+(* cache_inv (Full): in every reachable world each filled table equals its constant value and every memo
+   entry equals the value of its own key *)
+Theorem cache_inv : sigs_ok table -> forall r0 h,
+  (forall g v, cache (run' r0 h) g = Some v -> v = const g) /\
+  (forall g k v, memo (run' r0 h) g k = Some v -> v = mval g k).
+Proof. intros H r0 h. unfold run. apply (run_from_inv H h _ (init_inv r0)). Qed.
 
 Theorem step_result_indep : sigs_ok table -> forall (w w' : world') c,
-  Inv (cache w) -> Inv (cache w') -> fst (step' w c) = fst (step' w' c).
+  InvW w -> InvW w' -> fst (step' w c) = fst (step' w' c).
 Proof.
-  intros H w w' [f a] I I'. unfold step. simpl.
+  intros H w w' [f a] [I IM] [I' IM']. unfold step. simpl.
   pose proof (lookup_ok table H f) as Hs.
-  rewrite (view_const f a _ (cache w) Hs I), (view_const f a _ (cache w') Hs I').
+  rewrite (view_const f a _ (cache w) (memo w) Hs I IM), (view_const f a _ (cache w') (memo w') Hs I' IM').
   rewrite (src_const _ w w' Hs). reflexivity.
 Qed.
 
@@ -180,17 +247,17 @@ Theorem history_independent : sigs_ok table -> forall r0 r0' h c,
   result_after' r0 h c = result_after' r0' [] c.
 Proof.
   intros H r0 r0' h c. unfold result_after. apply step_result_indep; [exact H| |].
-  - intros g v E. exact (cache_inv H r0 h g v E).
-  - intros g v E. exact (cache_inv H r0' [] g v E).
+  - unfold run. apply (run_from_inv H h _ (init_inv r0)).
+  - unfold run. apply (run_from_inv H [] _ (init_inv r0')).
 Qed.
 
 (* rng_leak_free (Full): the result of a call does not depend on the incoming state of the global
    random generator nor on the clock - in ANY world, reachable or not *)
 Theorem rng_leak_free : sigs_ok table -> forall (w : world') r t c,
-  fst (step' w c) = fst (step' (mk_world (cache w) r t) c).
+  fst (step' w c) = fst (step' (mk_world (cache w) (memo w) r t) c).
 Proof.
   intros H w r t [f a]. unfold step. simpl.
-  rewrite (src_const _ w (mk_world (cache w) r t) (lookup_ok table H f)). reflexivity.
+  rewrite (src_const _ w (mk_world (cache w) (memo w) r t) (lookup_ok table H f)). reflexivity.
 Qed.
 
 (* the global generator is left untouched by functions that do not draw from it *)
@@ -209,9 +276,24 @@ Proof.
     + intros k Hin. apply (Hn k). right. exact Hin.
 Qed.
 
+Lemma mfill_frame a l : forall m g k, (forall kd, ~ In (g, kd) l) -> mfill' a m l g k = m g k.
+Proof.
+  induction l as [|[g0 k0] l IH]; intros m g k Hn; simpl.
+  - reflexivity.
+  - rewrite IH.
+    + unfold mfill1. simpl. destruct k0; try reflexivity. destruct (g =? g0) eqn:E; [|reflexivity].
+      apply Z.eqb_eq in E. subst g0. exfalso. apply (Hn KMemo). left. reflexivity.
+    + intros kd Hin. apply (Hn kd). right. exact Hin.
+Qed.
+
 Theorem step_frame : forall (w : world') c g,
-  (forall k, ~ In (g, k) (s_fills (lookup table (fst c)))) -> cache (snd (step' w c)) g = cache w g.
-Proof. intros w c g Hn. unfold step. simpl. apply fill_frame. exact Hn. Qed.
+  (forall k, ~ In (g, k) (s_fills (lookup table (fst c)))) ->
+  cache (snd (step' w c)) g = cache w g /\ (forall k, memo (snd (step' w c)) g k = memo w g k).
+Proof.
+  intros w c g Hn. unfold step. simpl. split.
+  - apply fill_frame. exact Hn.
+  - intros k. apply mfill_frame. exact Hn.
+Qed.
 
 End Hist.
 
@@ -221,8 +303,14 @@ End Hist.
 Example ex_table : list sig :=
   [ mk_sig 0 true [(0, KConst); (1, KConst)] [0; 1] [] false false None false [] false;
     mk_sig 1 true [] [] [] true true (Some 0) false [] false;
-    mk_sig 2 true [(1, KConst)] [1] [] true true (Some 7) false [(0, 12)] true ].
+    mk_sig 2 true [(1, KConst)] [1] [] true true (Some 7) false [(0, 12)] true;
+    mk_sig 3 true [(2, KMemo)] [2] [] false false None false [] false ].
 Example ex_table_ok : sigs_ok ex_table.
 Proof. apply sigs_okb_sound. vm_compute. reflexivity. Qed.
+(* integer arguments as memo keys satisfy the key hypotheses *)
+Example ex_key_sound : forall a b : Z, Z.eqb a b = true -> a = b.
+Proof. intros a b H. apply Z.eqb_eq. exact H. Qed.
+Example ex_key_refl : forall a : Z, Z.eqb a a = true.
+Proof. exact Z.eqb_refl. Qed.
 Example ex_table_inplace_ok : inplace_ok ex_table.
 Proof. apply inplace_okb_sound. vm_compute. reflexivity. Qed.
